@@ -143,6 +143,13 @@ class ImplWorld:
         k = self.classes['strand'][int(c)]
         return self._ret(k(self._seq(seq), name=self._opt(name)))
 
+    def op_mk_strandp(self, c, name, pfx, seq):
+        # a strand request with the optional prefix argument ('-' = not given, empty = prefix='')
+        k = self.classes['strand'][int(c)]
+        kw = {}
+        if pfx != '-': kw['prefix'] = pfx
+        return self._ret(k(self._seq(seq), name=self._opt(name), **kw))
+
     def op_mk_macro(self, c, name, ms):
         k = self.classes['macro'][int(c)]
         return self._ret(k(self._hs(ms), name=self._opt(name)))
